@@ -63,6 +63,9 @@ pub struct LogInner {
     /// async front-end: what the board declares as `get_rx_window_buffer` (None: the trait's
     /// default, equal to the lead time)
     pub buffer_ms: Option<u32>,
+    /// nb front-end only: a fault injected at a TxRequest shows as a reply of the wrong kind
+    /// (`Ok(Response::Idle)`: the radio took the frame and says it is idle) instead of an `Err`
+    pub odd_reply: bool,
 }
 
 pub type Log = Rc<RefCell<LogInner>>;
@@ -164,7 +167,13 @@ impl<const PW: u8, const G: i8> nb_device::radio::PhyRxTx for NbRadio<PW, G> {
         match event {
             Event::TxRequest(cfg, bytes) => {
                 self.log.borrow_mut().ev.push(Ev::Tx { pw: cfg.pw, freq: cfg.rf.frequency, sf: sf_num(cfg.rf.bb.sf), bw: bw_hz(cfg.rf.bb.bw), bytes: bytes.to_vec() });
-                radio_call(&self.log, "tx")?;
+                let odd = self.log.borrow().odd_reply;
+                if let Err(e) = radio_call(&self.log, if odd { "tx-odd-reply" } else { "tx" }) {
+                    if odd {
+                        return Ok(Response::Idle);
+                    }
+                    return Err(e);
+                }
                 if self.log.borrow().tx_async {
                     return Ok(Response::Txing);
                 }
@@ -1060,6 +1069,15 @@ impl<const PW: u8, const G: i8> Link<PW, G> {
     pub fn mac_frame(&mut self, cmds: &[u8], in_fopts: bool) -> Vec<u8> {
         self.fdown += 1;
         self.net.mac_downlink(self.fdown, cmds, in_fopts)
+    }
+
+    /// Delivers one frame that carries `fopts` in FOpts *and* `payload` as port-0 FRMPayload, in RX1
+    /// (or RX2) of a fresh uplink.
+    pub fn deliver_mac_both(&mut self, fopts: &[u8], payload: &[u8], rx2: bool) -> Txn {
+        self.fdown += 1;
+        let f = self.net.downlink(&crate::net::Down { fcnt: self.fdown, f_opts: fopts, port: Some(0), payload, ..Default::default() });
+        let script = if rx2 { Script::rx2(f) } else { Script::rx1(f) };
+        self.txn(&[0x11], 1, false, &script)
     }
 
     /// Delivers `cmds` in RX1 (or RX2) of a fresh uplink; returns that transaction.
